@@ -9,10 +9,10 @@ sys.path.insert(0, os.path.join(ROOT, 'tools'))
 sys.path.insert(0, os.path.join(ROOT, 'specs'))
 sys.path.insert(0, os.path.join(ROOT, 'specs', 'units'))
 
-NOTE = ('Trusted: Verus/vstd/Z3 (and Kani/CBMC where used), extractor rewrites (DESIGN 2.1), std assume_specifications and axioms (listed by name in '
+NOTE = ('Trusted: Verus/vstd/Z3 (and Kani/CBMC where used), the reference functions of /verif/xrun for the bounded xrun checks (listed under evidence.bounded_checks, never counted as proved), extractor rewrites (DESIGN 2.1), std assume_specifications and axioms (listed by name in '
         'evidence.trusted_base), 64-bit usize; functions left unverified are listed in evidence.assumed_contracts, bounded checks in '
         'evidence.bounded_checks (never counted as proved)')
-TECH = 'contract-based deductive verification (Verus on mechanically extracted real functions; Kani for complete loop-free and bounded checks)'
+TECH = 'contract-based deductive verification (Verus on mechanically extracted real functions; Kani for complete loop-free and bounded checks; xrun small-scope execution of the real crates as bounded stand-in and replay driver)'
 
 CLAIMS = {
     'C05': ('proof', 'Verus proof of the real VM core functions: vm_wf-style invariants as pre/postconditions plus Verus-generated no-overflow/in-bounds/no-panic goals; Vm::exec loop invariant carries the bounds to "after every executed operation"'),
@@ -25,19 +25,22 @@ CLAIMS = {
     'C18': ('proof', 'Verus proof that decode_mutation(s) invert the spec encoders and node_edges equals the documented sub-range; complete Kani proofs of the fixed-width conversions'),
     'C16': ('proof', 'Verus proof of bi-implications: validators accept exactly the documented limits'),
     'C04': ('proof', 'Verus proof that set validation is a symmetric predicate of the solutions incl. one mutation per (contract,key) across the set'),
-    'C01': ('other', 'graph-layer contracts only: malformed graphs rejected (create_parent_map Ok <==> graph_ok), helpers panic-free on all graphs; orchestration not covered'),
-    'C03': ('other', 'state-read routing proved (vm_core); overlay fallback and deferral helpers partially proved; two-pass sequencing not covered'),
+    'C01': ('other', 'Verus proof of the graph layer (create_parent_map Ok <==> graph_ok and node -> ascending parent list with multiplicity, in_degrees, find_deferred == descendant closure, helpers panic-free on all graphs); '
+                     'the verdict of the two-pass entry point as a whole only bounded: exhaustive execution of the real checker against the reference semantics on all graphs of <= 3 nodes and a seventh of those with 4 (xrun graph)'),
+    'C03': ('other', 'Verus proof of state-read routing (vm_core), of read_or_fallback == per-key overlay of proposed values on the pre-state (all ranges, deletions, key carry) and of find_deferred == descendant closure; '
+                     'next_key, post-state map construction and pass sequencing only bounded (Kani next_key all words for key lengths 0,1,2,4; xrun graph: two-pass entry point vs reference semantics)'),
     'C13': ('proof', 'Verus proof, on the macro-expanded text the proc-macro really emitted, that opcode<->byte tables, immediates, per-op parse/serialise and the byte iterators equal spec tables generated from asm.yml by an independent YAML reading; sequence round trips are Verus lemmas over those tables; comparison with the pinned opcode table; complete Kani proofs on the compiled crate'),
     'C15': ('proof', 'Verus proof that analyze(ops) is exactly the union of the effect flags present (all slices); the bitflags API by a complete Kani proof; bytes_contains_any (outside Verus) only bounded: Kani on all well-formed byte strings up to 20 bytes x all effect sets'),
 }
 
-CLAIMS['C17'] = ('other', 'partial, Verus: the set address sorts its address slice in place (permutation) and sorted arrangements are unique => order independence; '
+CLAIMS['C17'] = ('other', 'partial; bounded: xrun hash (all address helpers vs SHA-256 of the documented pre-hash encodings over the stated scope). Verus: the set address sorts its address slice in place (permutation) and sorted arrangements are unique => order independence; '
                  'from_solution_addrs, from_predicate_addrs, Program/Solution address impls and Predicate::encode delegation verified against spec functions over uninterpreted SHA-256/postcard; '
                  'predicate_encoded_size == documented size. Assumed (listed in evidence): Map/chain adapters feeding the hasher, encode_predicate layout, contract address slice function')
 CLAIMS['C14'] = ('other', 'bounded only, labelled bounded: Kani on the real compiled BytecodeMapped (mapping vs a reference stream parse generated from asm.yml; random access op(i) vs the parsed list) '
-                 'for all byte strings up to the stated lengths; execution equivalence rests on Vm::exec being verified generically over OpAccess')
-CLAIMS['C10'] = ('other', 'bounded only for the join (Kani on the real compute_effects through a cfg(kani) hook, concrete memory shapes, symbolic contents/gas/pcs/halts, memory-limit boundary) '
-                 'plus Verus contracts on step_op_compute / Vm::exec handling of compute results; the rayon fork in compute() is not covered')
+                 'for all byte strings up to the stated lengths; xrun bytecode: mapped form vs parsed list and exec_bytecode vs exec_ops on every program of <= 3 ops over a 20-op palette; '
+                 'beyond the bounds execution equivalence rests on Vm::exec being verified generically over OpAccess')
+CLAIMS['C10'] = ('other', 'bounded only: Kani on the real compute_effects (join) through a cfg(kani) hook, concrete memory shapes with symbolic contents/gas/pcs/halts; xrun compute: Compute(n) on the real VM vs the sequential '
+                 'fork/join of the property statement over 1680 parent-state x child-body x breadth cases (incl. the memory limit, nested compute, child errors); Verus contracts on Vm::exec handling of compute results; thread schedules are C02')
 NA = {
     'C02': 'thread schedules: no contract on the real functions can quantify over interleavings (Kani has no threads; Verus would need a rewritten model of the rayon code)',
     'C19': 'cryptographic binding lives in FFI C (secp256k1-sys) outside both verifiers; the in-repo glue is covered under C17',
